@@ -110,7 +110,7 @@ def cfmt (spec : List Nat) (k v : String) : String :=
       else if k == "y" then
         match unhex v with
         | none => none
-        | some b => if isString then some (some (formatBytes s b)) else some none
+        | some b => if isString then some (some (some (formatBytes s b))) else some none
       else none
     match out with
     | none => "bad-request"
@@ -151,8 +151,8 @@ def renderSpec (s : Spec) (bytesMode : Bool) (v : Views) : Rendered :=
   | .string conv =>
     if bytesMode then
       match conv with
-      | .str | .bytes => optR (formatBytes s v.bytes)
-      | _ => optR (formatBytes s (utf8Encode v.ascii))
+      | .str | .bytes => .ok (formatBytes s v.bytes)
+      | _ => .ok (formatBytes s (utf8Encode v.ascii))
     else
       match conv with
       | .str => .ok (utf8Encode (formatString s v.s))
